@@ -28,10 +28,25 @@ CORPUS = [
 
 # WeakRef / FinalizationRegistry: the programs print facts that must hold under every placement of collections
 WEAK = [
+    # ephemeron chains: a value that is itself the key of the next entry, in every allocation order
+    ("var wm = new WeakMap(), k1 = {n: 1}, k2 = {n: 2}, k3 = {n: 3}, v = {n: 4}; wm.set(k3, v); wm.set(k2, k3); wm.set(k1, k2); k2 = k3 = v = null; __gc(); print(wm.get(wm.get(wm.get(k1))).n, wm.has(wm.get(k1)));", ["4 true"]),
+    ("var wm = new WeakMap(), k1 = {n: 1}, k2 = {n: 2}, k3 = {n: 3}, v = {n: 4}; wm.set(k1, k2); wm.set(k2, k3); wm.set(k3, v); k2 = k3 = v = null; __gc(); print(wm.get(wm.get(wm.get(k1))).n);", ["4"]),
+    ("var wm = new WeakMap(), ks = []; for (var i = 0; i < 6; i++) ks.push({n: i}); for (var j = 5; j > 0; j--) wm.set(ks[j - 1], ks[j]); var head = ks[0]; ks = null; __gc(); var c = 0, p = head; while (wm.has(p)) { p = wm.get(p); c++; } print(c, p.n);", ["5 5"]),
+    ("var wa = new WeakMap(), wb = new WeakMap(), a = {}, b = {}, c = {t: 'end'}; wb.set(b, c); wa.set(a, b); b = c = null; __gc(); print(wb.get(wa.get(a)).t);", ["end"]),
     ("var keep = {k: 1}; var wr = new WeakRef(keep); for (var i = 0; i < 30; i++) ({}); __gc(); print(wr.deref() === keep);", ["true"]),
     ("var keep = {k: 1}, holder = {inner: {deep: keep}}; keep = null; var wr = new WeakRef(holder.inner.deep); Promise.resolve().then(function(){ __gc(); print(wr.deref() === holder.inner.deep, wr.deref().k); });", ["true 1"]),
     ("var wm = new WeakMap(), key = {}; wm.set(key, {payload: [1, 2, 3]}); var wr = new WeakRef(wm.get(key)); Promise.resolve().then(function(){ __gc(); print(wr.deref() === wm.get(key), wm.get(key).payload.length); });", ["true 3"]),
 ]
+# a cleanup callback that throws, and one that unregisters from inside: each registration is still reported at most once
+FR2 = ("var log = [], fr = new FinalizationRegistry(function(t){ log.push(t); if (t == 'A') throw new Error('boom'); });\n"
+       "(function(){ fr.register({}, 'A'); })();\n"
+       "function later(){ (function(){ fr.register({}, 'B'); fr.register({}, 'C'); })(); }\n"
+       "Promise.resolve().then(function(){ __gc(); }).then(later);\n"
+       "function __final(){ log.sort(); print(log.join()); }")
+FR3 = ("var log = [], tok = {}, fr = new FinalizationRegistry(function(t){ log.push(t); fr.unregister(tok); });\n"
+       "(function(){ fr.register({}, 'A', tok); fr.register({}, 'B', tok); fr.register({}, 'C'); })();\n"
+       "function step(n){ __gc(); if (n) Promise.resolve().then(function(){ step(n - 1); }); else { log.sort(); var dup = log.some(function(t, k){ return k && log[k - 1] === t; }); print('dup', dup); } }\n"
+       "Promise.resolve().then(function(){ step(5); });")
 FR = ("var log = [], fr = new FinalizationRegistry(function(t){ log.push(t); }); var keep = [];\n"
       "for (var i = 0; i < 6; i++) { var o = {i: i}; fr.register(o, 't' + i); if (i % 2) keep.push(o); } o = null;\n"
       "var un = {}; var gone = {}; fr.register(gone, 'unreg', un); fr.unregister(un); gone = null;\n"
@@ -65,13 +80,17 @@ def run(ck):
     for st in (0, 1):
         src.append("//// fr.%d stress=%d" % (st, st))
         src.append(FR)
+        src.append("//// fr2.%d stress=%d" % (st, st))
+        src.append(FR2)
+        src.append("//// fr3.%d stress=%d" % (st, st))
+        src.append(FR3)
     rc, out, err = ck.run_bin(bins["c10"], input="\n".join(src) + "\n", timeout=6000)
     res = {}
     for l in out.split("\n"):
         if l.startswith("{"):
             j = json.loads(l)
             res[j["id"]] = j
-    n_expected = 2 * (len(progs) + len(WEAK) + 1)
+    n_expected = 2 * (len(progs) + len(WEAK) + 3)
     if rc != 0 or len(res) != n_expected:
         ck.fail_input({"site": "engine-crash", "input": "c10 batch", "expected": "%d traces" % n_expected, "actual": "rc=%s got %d: %s" % (rc, len(res), err[-400:])})
     collections = 0
@@ -102,6 +121,15 @@ def run(ck):
         if j and (len(j["out"]) != 1 or not j["out"][0].startswith("duplicates false reported-while-reachable-or-unregistered  kept 3")):
             ck.fail_input({"site": "finalization-registry", "input": FR, "mode": "stress=%d" % st,
                            "expected": "no token twice, none for a reachable or unregistered target", "actual": j["out"]})
+    for st in (0, 1):
+        j = res.get("fr2.%d" % st)
+        if j and (j["completion"].startswith("panic") or any(x.count("A") > 1 or x.count("B") > 1 or x.count("C") > 1 for x in j["out"])):
+            ck.fail_input({"site": "finalization-registry-reports-twice", "input": FR2, "mode": "stress=%d" % st,
+                           "expected": "each token at most once, also when a cleanup callback throws", "actual": {"out": j["out"], "completion": j["completion"]}})
+        j = res.get("fr3.%d" % st)
+        if j and (j["completion"].startswith("panic") or "panic" in j.get("jobs", "") or j["out"] != ["dup false"]):
+            ck.fail_input({"site": "finalization-registry-unregister-in-callback", "input": FR3, "mode": "stress=%d" % st,
+                           "expected": ["dup false"], "actual": {"out": j["out"], "completion": j["completion"], "jobs": j.get("jobs")}})
     ck.oblige("differential:trace with a collection before every allocation == trace without (%d programs, %d collections)" % (len(progs), collections),
               "correspondence", True)
     ck.coverage.update({
